@@ -16,6 +16,55 @@ CHECKS = {
         ref='6/C05'),
 }
 
+CHECKS.update({
+    'C03': dict(
+        text='Coq theorems over an executable model of the query-string and urlencoded-body parsers (unquote(quote)=id for every '
+             'encoding style, parse(encode m)=to_dict m for every multimap/separator/charset list, merge order, all-or-nothing '
+             'decoding), tied to the code by differential runs of the extracted model against in-process WSGI requests, with an '
+             'independent ground-truth oracle.',
+        note='Codecs are section variables with a round-trip hypothesis (concrete utf-8 instance proved); whole-dict key order '
+             'across query+body is proved per key only; urllib internals are modelled for ASCII query strings.',
+        technique='Coq proof (codec round-trip laws) + extracted-model differential correspondence', ref='6/C03'),
+    'C12': dict(
+        text='Coq theorems over models of header encoding, finalize status/cookie lines, html.escape, quoteattr, RFC 2047 base64 '
+             'and the access-log escaping (no control byte in any emitted header item, escape/unescape and b64 round trips, '
+             'single-line log records for all strings); delete table regenerated from source each run (tie); differential runs '
+             'over sinks x payloads with an independent oracle.',
+        note='Morsel.OutputString, str.title, valid_status, urljoin and email.header are oracles recorded from the running code.',
+        technique='Coq proof (all-strings invariants) + generated constant ties + differential correspondence', ref='6/C12'),
+    'C14': dict(
+        text='Coq theorems over a model of the session store (RAM and file backends) quantified over all stores, clocks, RNG '
+             'streams and operation histories: no adoption of client ids, persistence until expiry, no resurrection '
+             '(non-interference of expired data), exact sweep, torn files are absent sessions; comparison operators and the '
+             '_load except clause regenerated from source (tie); differential histories with patched clock/urandom.',
+        note='Sequential histories (locking is C13); ids are opaque tokens; pickle.load raise-set is an assumption measured each run; '
+             'the instant expiry = now is left open as the property text does.',
+        technique='Coq proof (history induction, non-interference) + generated ties + differential correspondence', ref='6/C14'),
+    'C15': dict(
+        text='Coq theorems by induction over all sequential histories of requests, clock steps and sweeps of a model of '
+             'MemoryCache/caching.get/tee_output: served responses are genuine per Vary value, fresh (Age = whole seconds <= '
+             'min(delay, max-age)), invalidation, no-cache, no-store; differential histories with a generation-number oracle.',
+        note='AntiStampedeCache waiting between threads is not modelled (sequential histories only): partial for the schedules part; '
+             'Vary assumed constant per URI; bodies abstracted to generation numbers in the model (the oracle compares real bodies).',
+        technique='Coq proof (history invariants) + differential correspondence', ref='6/C15'),
+    'C17': dict(
+        text='Coq theorems: gunzip(compress chunks)=concat chunks for every chunking (RFC 1952 reader checking CRC-32/ISIZE; zlib as a '
+             'section hypothesis), the gzip decision incl. the exact 406 condition, and charset negotiation (announced charset '
+             'acceptable, can encode, nothing strictly preferred can; else 406); header bytes/CRC update regenerated from source '
+             '(ties); differential runs with gzip.decompress / bytes.decode oracles.',
+        note='zlib and the codecs are runtime oracles; forced encodings and streamed bodies are covered by D and the oracle only; '
+             'two recorded known findings (stream-unencodable, bom-per-chunk).',
+        technique='Coq proof (framing + decision procedures) + generated ties + differential correspondence', ref='6/C17'),
+    'C19': dict(
+        text='Coq theorems over a model of basic_auth and digest_auth with MD5 uninterpreted: digest soundness and completeness '
+             '(handler reached iff the header parses, the nonce is ts:H(ts:realm:key), HA1 known, response = KD(...), not stale), '
+             'exact reject outcomes (400/401, stale=true iff genuine expired nonce), basic iff; differential runs against an '
+             'independent RFC 2617/7617 client with all single-field corruptions; oracle-call traces compared.',
+        note='MD5, urllib parse_keqv_list, base64, NFC, charset decoding, get_ha1/checkpassword are oracles; challenge re-parse is '
+             'checked by the harness, not proved.',
+        technique='Coq proof (decision equivalence with uninterpreted hash) + differential correspondence', ref='6/C19'),
+})
+
 PENDING = {}
 
 
